@@ -94,7 +94,10 @@ func c01Check(c *Ctx, doc *XElem, rv int, cfg Cfg, allEntry bool) {
 	var m mxj.Map
 	var err error
 	var gw []string
-	st, pan := protect(func() { gw = globalWrites(func() { m, err = mxj.NewMapXml([]byte(xmlText), cfg.Cast) }) })
+	inBuf, inCheck := guardedInput(xmlText)
+	st, pan := protect(func() { gw = globalWrites(func() { m, err = mxj.NewMapXml(inBuf, cfg.Cast) }) })
+	inputDamage := inCheck()
+	scribble(inBuf) // the caller reuses its buffer: the Map must not share memory with it
 	c.S.Transitions++
 	c.S.Validated++
 	if len(gw) > 0 {
@@ -104,6 +107,10 @@ func c01Check(c *Ctx, doc *XElem, rv int, cfg Cfg, allEntry bool) {
 	}
 	if pan {
 		c.Violate("NewMapXml", "panic", c01Shape(doc), cas, nil, st)
+		return
+	}
+	if inputDamage != "" {
+		c.Violate("NewMapXml", "input-buffer-written", c01Shape(doc), cas, nil, inputDamage)
 		return
 	}
 	if err != nil {
@@ -188,7 +195,7 @@ func c01Decos(base *XElem, thorough bool) []Deco {
 	els := base.elems()
 	attrNames := []string{"x", "y", "x-y", "n:x", "X", "a"}
 	attrVals := []string{"v", "1", " v ", "<&\"'>", "it's", "\"q\""}
-	textVals := []string{"t", " t ", "1", "1.5", "true", "a&b<c>", "\tt\n", "x y", "it's", "\"q\""}
+	textVals := []string{"t", " t ", "1", "1.5", "true", "a&b<c>", "\tt\n", "x y", "it's", "\"q\"", "\u00a0t\u2028", "\u3000"}
 	renames := []string{"B", "a-b", "a_b", "n:a", "A"}
 	for i, e := range els {
 		nk := len(e.Items)
